@@ -202,7 +202,7 @@ def _run(ctx):
 
 def replay(path):
     doc = json.load(open(path))
-    if ":core" in doc.get("signature", "") or ":atoms:" in doc.get("signature", ""):
+    if any(t in doc.get("signature", "") for t in (":core", ":atoms:", "in-place", "route-other-table")):
         cd = vlib.run_harness("c10core.py", [0, "quick"], timeout=3000)
         hit = [d for d in cd["direct_fails"] if d["signature"] == doc["signature"]]
         if hit:
